@@ -41,7 +41,7 @@ P["C03"] = dict(
     text="Header lines produced by the writer model are shown to be layouts satisfying the hypotheses of the header-grammar theorem for every item "
          "of a section whatever the column widths (widths cover every item), so parsing returns the fields written; value/description order uses the "
          "same generated table on both sides; standardize is idempotent and changes only empty values with a unit. Tie: generated item lists "
-         "(duplicates, blanks, each item the widest, punctuation/quotes/brackets) written as 1.2/2.0 and read with preserve/upper/lower.",
+         "(duplicates, blanks, each item the widest, punctuation/quotes/brackets) written as 1.2/2.0 and read with preserve/upper/lower. Pins (proved for every input against the functions re-translated from /repo on this run): writer order/formatter/widths, strip_brackets, useful_mnemonic, mnemonic_compare.",
     note="oracle: num(str(v)) is numerically v for numeric header values (checked per case); ASCII case mapping; blank-mnemonic lines covered by "
          "correspondence.",
     design="DESIGN.md 6 C03")
@@ -50,7 +50,7 @@ P["C04"] = dict(
     text="C04_parse_all and instances: for all field contents and all six paddings satisfying the conformance predicates, read_header_line(layout) "
          "returns exactly (MNEM, UNIT, VALUE, DESCR) in every section kind, incl. empty fields, units with interior dots/colons, the last-colon rule, "
          "clock-time colons in ~Parameter (all 24x60 times), 'NAME : VALUE' lines, '1000 lbf' units; total on period/colon lines. The regex ASTs are "
-         "CPython's own parse of the pattern strings in the source today (C04_patterns_current), so an edited pattern breaks a proof obligation.",
+         "CPython's own parse of the pattern strings in the source today (C04_patterns_current), so an edited pattern breaks a proof obligation. Pins: configure_metadata_patterns' pattern selection and read_header_line's field post-processing equal the model for every line (translated from the source on every run).",
     note="\\d modelled as ASCII digits, \\s as str.isspace; pattern selection logic hand-modelled (tied by correspondence on every generated line).",
     design="DESIGN.md 6 C04")
 P["C05"] = dict(
@@ -58,7 +58,7 @@ P["C05"] = dict(
     text="C05_cut/C05_bodies: for any number, order and size of blocks the section table lists exactly the titles and the slice read for section i "
          "is exactly body i (inner and last sections alike; nothing dropped, duplicated or shared); classification depends only on the upper-cased "
          "letter; only ~V (VERS/WRAP/DLM) and ~W (NULL) can change steering values, other sections never do; routing writes one slot. Tie: all 120 "
-         "permutations of {W,C,P,O,custom} with ~A at every position, documented title spellings in both cases, steering names planted in ~P/custom.",
+         "permutations of {W,C,P,O,custom} with ~A at every position, documented title spellings in both cases, steering names planted in ~P/custom. Pins: determine_section_type and the section router of LASFile.read equal the model for every title.",
     note="LAS 1.2/2.0 titles (LAS 3.0 section handling outside the model); that parse of body i yields the intended items is C03/C04.",
     design="DESIGN.md 6 C05")
 P["C06"] = dict(
@@ -80,7 +80,7 @@ P["C08"] = dict(
     technique="Coq proof (regex-language soundness/completeness + literal recognisers, for all strings) + exhaustive short-string correspondence",
     text="C08_verbatim/C08_integer/C08_float for ALL strings: SectionParser.num converts exactly the plain decimal literals (after the decimal-comma "
          "rule), integers exactly when they fit 64 bits, others as float(text) unless it overflows; everything else verbatim. The comma substitution "
-         "and the literal guard are the regex ASTs translated from the source on every run.",
+         "and the literal guard are the regex ASTs translated from the source on every run. Pins: SectionParser.__init__/num/metadata/params/curves re-translated from the source on every run and proved equal to the model for every input (int()/float()/isfinite as record operations).",
     note="np.float64(text) correctly rounded (oracle, checked per case against decimal); API/UWI and ~Curves rules checked at file level.",
     design="DESIGN.md 6 C08")
 P["C09"] = dict(
@@ -115,7 +115,7 @@ P["C13"] = dict(
     technique="Coq proof (invariant by induction over operation sequences, refuted at the known clash) + exhaustive short operation sequences",
     text="Inv (distinct session names, each resolves to its own item, blanks shown as UNKNOWN, originals never altered) holds initially and is "
          "preserved by append/insert/delete/replace for sequences of any length under no_suffix_clash (the recorded finding: A, A, A:1); numbering "
-         "post-condition; closed form of the names after reading; round trip of names. C13_I1_refuted exhibits the clash by vm_compute.",
+         "post-condition; closed form of the names after reading; round trip of names. C13_I1_refuted exhibits the clash by vm_compute. Pins: useful_mnemonic, mnemonic_compare.",
     note="known finding suffix-clash (statement's clauses jointly unsatisfiable there); object aliasing not expressible; file level checked on the implementation.",
     design="DESIGN.md 6 C13")
 P["C14"] = dict(
@@ -127,7 +127,7 @@ P["C14"] = dict(
 P["C15"] = dict(
     technique="Coq proof (pointwise laws on arbitrary section states) + exhaustive operation/probe sequences",
     text="For every section state and string key: membership iff item access succeeds, first match, attribute access agrees, missing key -> KeyError, "
-         "get() pure / add appends exactly one, set-value and delete frames, int keys and slices as list positions.",
+         "get() pure / add appends exactly one, set-value and delete frames, int keys and slices as list positions. Pins: SectionItems.__contains__/__getitem__ for str keys re-translated and proved equal to the model.",
     note="two language-level exclusions are explicit hypotheses (list attribute names; non-string membership); ASCII case folding.",
     design="DESIGN.md 6 C15")
 P["C16"] = dict(
@@ -135,7 +135,7 @@ P["C16"] = dict(
     text="write leaves data, order, mnemonics, descriptions alone; only STRT/STOP/STEP values+units, curve 0's unit, the WRAP item and empty values "
          "with units change; in-memory VERS untouched; a second write gives identical text and state; when the index was created/changed or STOP "
          "disagrees, STRT/STOP/STEP carry the formatted first/last/first-increment and aligned units. Tie: read / scratch / edited index / edited curve "
-         "/ edited header, 11 option sets, 1-3 writes: every text and the full snapshot compared.",
+         "/ edited header, 11 option sets, 1-3 writes: every text and the full snapshot compared. Pin: the writer's value standardisation.",
     note="'to format precision' = the text CPython prints (oracle fmtv/fmt_diff); STRT/STOP/STEP keyword arguments left to lasio.",
     design="DESIGN.md 6 C16")
 P["C17"] = dict(
@@ -148,7 +148,7 @@ P["C18"] = dict(
     technique="Coq proof (encoder value map and strictness, CSV/Excel/DataFrame layouts, unit table decisions against translated DEPTH_UNITS, depth identity in Q) + export correspondence",
     text="partial by nature: proved — JSON is strict and carries every value, CSV header rows and one record per step, Excel cell layout, df and "
          "set_data_from_df(df()), index-unit decision on the generated table, depth_m = depth_ft*381/1250 exactly in Q; assumed — json/csv/openpyxl/"
-         "pandas store what they are handed, float rounding within 4 ulp.",
+         "pandas store what they are handed, float rounding within 4 ulp. Pin: las._json_value re-translated and proved equal to the model's JSON value mapping.",
     note="library behaviour is an oracle; known finding excel-inf.",
     design="DESIGN.md 6 C18")
 P["C19"] = dict(
